@@ -199,6 +199,185 @@ def t_ifexp(src):
     return ast.unparse(t) + '\n'
 
 
+class _FlipCompare(ast.NodeTransformer):
+    """a == b -> b == a ; a != b -> b != a ; a < b -> b > a ; a <= b -> b >= a (and back): operands are pure in the places rules look"""
+    FLIP = {ast.Eq: ast.Eq, ast.NotEq: ast.NotEq, ast.Lt: ast.Gt, ast.Gt: ast.Lt, ast.LtE: ast.GtE, ast.GtE: ast.LtE}
+
+    def visit_Compare(self, node):
+        self.generic_visit(node)
+        if len(node.ops) == 1 and type(node.ops[0]) in self.FLIP and not any(isinstance(n, (ast.Call, ast.NamedExpr)) for n in ast.walk(node)):
+            return ast.copy_location(ast.Compare(left=node.comparators[0], ops=[self.FLIP[type(node.ops[0])]()], comparators=[node.left]), node)
+        return node
+
+
+def t_flip(src):
+    t = _FlipCompare().visit(ast.parse(src))
+    ast.fix_missing_locations(t)
+    return ast.unparse(t) + '\n'
+
+
+class _ReorderMethods(ast.NodeTransformer):
+    """Plain methods of a class (no decorator, or staticmethod / classmethod only) are put in reverse order; everything else keeps
+    its place.  Definition order of such methods means nothing to Python."""
+
+    def visit_ClassDef(self, node):
+        self.generic_visit(node)
+        def plain(st):
+            return isinstance(st, ast.FunctionDef) and all(isinstance(d, ast.Name) and d.id in ('staticmethod', 'classmethod') for d in st.decorator_list)
+        idx = [i for i, st in enumerate(node.body) if plain(st)]
+        used = {n.id for st in node.body if not isinstance(st, ast.FunctionDef) for n in ast.walk(st) if isinstance(n, ast.Name)}
+        idx = [i for i in idx if node.body[i].name not in used]
+        rev = [node.body[i] for i in reversed(idx)]
+        for i, st in zip(idx, rev):
+            node.body[i] = st
+        return node
+
+
+def t_reorder(src):
+    t = _ReorderMethods().visit(ast.parse(src))
+    ast.fix_missing_locations(t)
+    return ast.unparse(t) + '\n'
+
+
+class _InlineTemps(ast.NodeTransformer):
+    """x = EXPR; <next statement using x exactly once, x used nowhere else>  ->  <next statement with EXPR in place of x>
+    when EXPR is free of calls (no side effects, evaluation order irrelevant)."""
+
+    def visit_FunctionDef(self, node):
+        self.generic_visit(node)
+        loads, stores = {}, {}
+        for n in ast.walk(node):
+            if isinstance(n, ast.Name):
+                d = loads if isinstance(n.ctx, ast.Load) else stores
+                d[n.id] = d.get(n.id, 0) + 1
+
+        def fix(stmts):
+            out = []
+            i = 0
+            while i < len(stmts):
+                st = stmts[i]
+                nxt = stmts[i + 1] if i + 1 < len(stmts) else None
+                if isinstance(st, ast.Assign) and len(st.targets) == 1 and isinstance(st.targets[0], ast.Name) and nxt is not None \
+                        and isinstance(nxt, (ast.Assign, ast.Expr, ast.Return, ast.AugAssign)) \
+                        and not any(isinstance(n, (ast.Call, ast.Yield, ast.Await, ast.NamedExpr, ast.Lambda, ast.ListComp, ast.GeneratorExp, ast.DictComp, ast.SetComp)) for n in ast.walk(st.value)):
+                    nm = st.targets[0].id
+                    uses = [n for n in ast.walk(nxt) if isinstance(n, ast.Name) and n.id == nm and isinstance(n.ctx, ast.Load)]
+                    if loads.get(nm, 0) == 1 and stores.get(nm, 0) == 1 and len(uses) == 1:
+                        class S(ast.NodeTransformer):
+                            def visit_Name(self, n):
+                                if n.id == nm and isinstance(n.ctx, ast.Load):
+                                    return st.value
+                                return n
+                        out.append(S().visit(nxt))
+                        i += 2
+                        continue
+                for fld in ('body', 'orelse', 'finalbody'):
+                    seq = getattr(st, fld, None)
+                    if isinstance(seq, list) and seq and isinstance(seq[0], ast.stmt) and not isinstance(st, (ast.FunctionDef, ast.ClassDef)):
+                        setattr(st, fld, fix(seq))
+                if isinstance(st, ast.Try):
+                    for h in st.handlers:
+                        h.body = fix(h.body)
+                out.append(st)
+                i += 1
+            return out
+        node.body = fix(node.body)
+        return node
+
+
+def t_inline(src):
+    t = _InlineTemps().visit(ast.parse(src))
+    ast.fix_missing_locations(t)
+    return ast.unparse(t) + '\n'
+
+
+class _LoopToComp(ast.NodeTransformer):
+    """xs = []; for a in b: [if c:] xs.append(E)   ->   xs = [E for a in b [if c]]"""
+
+    def _fix(self, stmts):
+        out = []
+        i = 0
+        while i < len(stmts):
+            st = stmts[i]
+            nxt = stmts[i + 1] if i + 1 < len(stmts) else None
+            done = False
+            if isinstance(st, ast.Assign) and len(st.targets) == 1 and isinstance(st.targets[0], ast.Name) and isinstance(st.value, ast.List) \
+                    and not st.value.elts and isinstance(nxt, ast.For) and not nxt.orelse and len(nxt.body) == 1:
+                nm = st.targets[0].id
+                b = nxt.body[0]
+                cond_ = None
+                if isinstance(b, ast.If) and not b.orelse and len(b.body) == 1:
+                    cond_, b = b.test, b.body[0]
+                if isinstance(b, ast.Expr) and isinstance(b.value, ast.Call) and isinstance(b.value.func, ast.Attribute) and b.value.func.attr == 'append' \
+                        and isinstance(b.value.func.value, ast.Name) and b.value.func.value.id == nm and len(b.value.args) == 1 \
+                        and not any(isinstance(n, ast.Name) and n.id == nm for n in ast.walk(b.value.args[0])) \
+                        and not (cond_ is not None and any(isinstance(n, ast.Name) and n.id == nm for n in ast.walk(cond_))) \
+                        and not any(isinstance(n, (ast.Yield, ast.Await)) for n in ast.walk(nxt)):
+                    comp = ast.ListComp(elt=b.value.args[0], generators=[ast.comprehension(target=nxt.target, iter=nxt.iter, ifs=[cond_] if cond_ is not None else [], is_async=0)])
+                    out.append(ast.copy_location(ast.Assign(targets=[ast.Name(id=nm, ctx=ast.Store())], value=comp), st))
+                    i += 2
+                    done = True
+            if not done:
+                out.append(st)
+                i += 1
+        return out
+
+    def generic_visit(self, node):
+        super().generic_visit(node)
+        for fld in ('body', 'orelse', 'finalbody'):
+            seq = getattr(node, fld, None)
+            if isinstance(seq, list) and seq and isinstance(seq[0], ast.stmt):
+                setattr(node, fld, self._fix(seq))
+        if isinstance(node, ast.Try):
+            for h in node.handlers:
+                h.body = self._fix(h.body)
+        return node
+
+
+def t_comp(src):
+    t = _LoopToComp().visit(ast.parse(src))
+    ast.fix_missing_locations(t)
+    return ast.unparse(t) + '\n'
+
+
+class _CompToLoop(ast.NodeTransformer):
+    """xs = [E for a in b [if c]]  (statement level, one generator, target names not used afterwards)  ->  xs = []; for a in b: [if c:] xs.append(E)"""
+
+    def _fix(self, stmts, used_after):
+        out = []
+        for k, st in enumerate(stmts):
+            if isinstance(st, ast.Assign) and len(st.targets) == 1 and isinstance(st.targets[0], ast.Name) and isinstance(st.value, ast.ListComp) \
+                    and len(st.value.generators) == 1 and not st.value.generators[0].is_async:
+                g = st.value.generators[0]
+                nm = st.targets[0].id
+                tnames = {n.id for n in ast.walk(g.target) if isinstance(n, ast.Name)}
+                later = {n.id for s2 in stmts[k + 1:] for n in ast.walk(s2) if isinstance(n, ast.Name)} | used_after
+                earlier = {n.id for s2 in stmts[:k] for n in ast.walk(s2) if isinstance(n, ast.Name)}
+                if not (tnames & (later | earlier)) and not any(isinstance(n, ast.Name) and n.id == nm for n in ast.walk(st.value)):
+                    app = ast.Expr(value=ast.Call(func=ast.Attribute(value=ast.Name(id=nm, ctx=ast.Load()), attr='append', ctx=ast.Load()), args=[st.value.elt], keywords=[]))
+                    body = [app]
+                    for c in reversed(g.ifs):
+                        body = [ast.If(test=c, body=body, orelse=[])]
+                    out.append(ast.copy_location(ast.Assign(targets=[ast.Name(id=nm, ctx=ast.Store())], value=ast.List(elts=[], ctx=ast.Load())), st))
+                    out.append(ast.copy_location(ast.For(target=g.target, iter=g.iter, body=body, orelse=[]), st))
+                    continue
+            out.append(st)
+        return out
+
+    def visit_FunctionDef(self, node):
+        self.generic_visit(node)
+        allnames = {n.id for n in ast.walk(node) if isinstance(n, ast.Name)}
+        # only top-level statements of the function body (keeps the "not used elsewhere" test simple)
+        node.body = self._fix(node.body, set())
+        return node
+
+
+def t_uncomp(src):
+    t = _CompToLoop().visit(ast.parse(src))
+    ast.fix_missing_locations(t)
+    return ast.unparse(t) + '\n'
+
+
 def main():
     import json
     props = [c['property_id'] for c in json.load(open(os.path.join(HERE, 'MANIFEST.json')))['checks']]
@@ -209,7 +388,7 @@ def main():
     ponly = [a for a in sys.argv[1:] if a.startswith('C') and a[1:].isdigit()]
     if ponly:
         props = ponly
-    for name, fn in (('reformat', t_reformat), ('shift', t_shift), ('logging', t_logging), ('swapif', t_swapif), ('retvar', t_retvar), ('rename', t_rename), ('guard', t_guard), ('elif', t_elif), ('ifexp', t_ifexp)):
+    for name, fn in (('reformat', t_reformat), ('shift', t_shift), ('logging', t_logging), ('swapif', t_swapif), ('retvar', t_retvar), ('rename', t_rename), ('guard', t_guard), ('elif', t_elif), ('ifexp', t_ifexp), ('flip', t_flip), ('reorder', t_reorder), ('inline', t_inline), ('comp', t_comp), ('uncomp', t_uncomp)):
         if only and name not in only:
             continue
         overlay = {k: fn(v) for k, v in src.items()}
